@@ -218,7 +218,7 @@ func (r *rewriter) rewriteStmts(l []ast.Stmt) []ast.Stmt {
 // forbidden constructs: the scheduler cannot control them, so an edited tree
 // that introduces one is rejected instead of being explored unsoundly.
 var forbidden = map[string]map[string]bool{
-	"time":      {"After": true, "NewTimer": true, "AfterFunc": true, "Tick": true, "NewTicker": true},
+	"time":      {"Tick": true, "NewTicker": true},
 	"os/signal": {"Notify": true, "NotifyContext": true},
 	"net":       {"Dial": true, "Listen": true, "DialTimeout": true},
 	"context":   {"WithTimeout": true, "WithDeadline": true, "WithTimeoutCause": true, "WithDeadlineCause": true},
@@ -288,6 +288,15 @@ func (r *rewriter) pre(c *astutil.Cursor) bool {
 
 func (r *rewriter) post(c *astutil.Cursor) bool {
 	switch n := c.Node().(type) {
+	case *ast.SelectorExpr:
+		// the type time.Timer (a field or variable holding a timer) becomes vs.Timer
+		if x, ok := n.X.(*ast.Ident); ok && n.Sel.Name == "Timer" && r.info != nil {
+			if pn, ok := r.info.Uses[x].(*types.PkgName); ok && pn.Imported().Path() == "time" {
+				r.timeName = x.Name
+				r.usesV = true
+				c.Replace(&ast.SelectorExpr{X: id("vs"), Sel: id("Timer")})
+			}
+		}
 	case *ast.GoStmt:
 		r.st.GoStmts++
 		c.Replace(r.rewriteGo(n))
@@ -316,6 +325,13 @@ func (r *rewriter) post(c *astutil.Cursor) bool {
 			// scheduling point that takes no time is a sound model of it
 			r.timeName = n.Fun.(*ast.SelectorExpr).X.(*ast.Ident).Name
 			c.Replace(r.vsCall("Sleep", n.Args[0]))
+		} else if (r.isPkgFunc(n.Fun, "time", "After") || r.isPkgFunc(n.Fun, "time", "NewTimer")) && len(n.Args) == 1 {
+			// timers: see vs.Timer (may fire at any scheduling point once armed)
+			r.timeName = n.Fun.(*ast.SelectorExpr).X.(*ast.Ident).Name
+			c.Replace(r.vsCall(n.Fun.(*ast.SelectorExpr).Sel.Name, n.Args[0]))
+		} else if r.isPkgFunc(n.Fun, "time", "AfterFunc") && len(n.Args) == 2 {
+			r.timeName = n.Fun.(*ast.SelectorExpr).X.(*ast.Ident).Name
+			c.Replace(r.vsCall("AfterFunc", n.Args...))
 		} else if r.isPkgFunc(n.Fun, "context", "AfterFunc") && len(n.Args) == 2 {
 			c.Replace(r.vsCall("CtxAfterFunc", n.Args...))
 		} else if r.ctxErr[n] {
